@@ -1,6 +1,7 @@
 //! Implementation of a parser for custom types in the CQL protocol.
 
 use super::result::CollectionType;
+use super::result::MAX_TYPE_NESTING_DEPTH;
 use super::result::NativeType;
 use super::result::{ColumnType, UserDefinedType};
 use crate::frame::frame_errors::CustomTypeParseError;
@@ -33,6 +34,9 @@ pub(crate) struct CustomTypeParser<'result> {
     /// When we encounter a `FrozenType(...)`, this field is set to true for the duration
     /// of parsing the inner type, and then set back to false.
     frozen_context: bool,
+    /// Current nesting depth of `do_parse()` calls. Parsing is recursive, so the depth
+    /// is limited (see [MAX_TYPE_NESTING_DEPTH]) to keep stack usage bounded.
+    depth: usize,
 }
 
 impl<'result> CustomTypeParser<'result> {
@@ -40,6 +44,7 @@ impl<'result> CustomTypeParser<'result> {
         Self {
             parser: ParserState::new(input),
             frozen_context: false,
+            depth: 0,
         }
     }
 
@@ -260,6 +265,7 @@ impl<'result> CustomTypeParser<'result> {
         let mut backup = Self {
             parser: self.parser,
             frozen_context: self.frozen_context,
+            depth: self.depth,
         };
 
         // FIXME: Rewrite using std::iter::FromIterator::collect_array after it is stabilized.
@@ -367,6 +373,16 @@ impl<'result> CustomTypeParser<'result> {
     }
 
     fn do_parse(&mut self) -> Result<ColumnType<'result>, CustomTypeParseError> {
+        if self.depth >= MAX_TYPE_NESTING_DEPTH {
+            return Err(CustomTypeParseError::NestingTooDeep(MAX_TYPE_NESTING_DEPTH));
+        }
+        self.depth += 1;
+        let result = self.do_parse_nested();
+        self.depth -= 1;
+        result
+    }
+
+    fn do_parse_nested(&mut self) -> Result<ColumnType<'result>, CustomTypeParseError> {
         self.skip_blank();
 
         let mut name = self.read_next_identifier();
